@@ -508,6 +508,28 @@ def relations(alg, cfg, pre, post):
 
 
 # --------------------------------------------------------------------------------------------- acquisition
+_THOMPSON = []
+
+
+def install_thompson_recorder():
+    """DecoupledGP builds its acquisition inside evaluating(): the class is looked up in the module namespace at call time, so a
+    recording subclass there sees every forward() call (values are stochastic and cannot be recomputed afterwards)."""
+    import vopy.algorithms.decoupled as dmod
+    base = dmod.ThompsonEntropyDecoupledAcquisition
+    if getattr(base, "_vv_recording", False):
+        return
+
+    class Rec(base):
+        _vv_recording = True
+
+        def forward(self, x):
+            v = super().forward(x)
+            _THOMPSON.append((self.evaluation_index, np.array(x, copy=True), np.array(v, copy=True)))
+            return v
+
+    dmod.ThompsonEntropyDecoupledAcquisition = Rec
+
+
 def acq_pre_evaluate(alg, cfg):
     """called by the proxy at the moment of evaluate(), i.e. before the new samples reach the model"""
     a = cfg["alg"]
@@ -530,6 +552,20 @@ def acq_pre_evaluate(alg, cfg):
                         v = v / alg.costs[o]
                     vals.append(float(v))
             return {"cand": cand, "vals": vals}
+        if a == "DecoupledGP" and cfg.get("batch", 1) == 1 and _THOMPSON:
+            # the stochastic Thompson-entropy values, recorded at forward() by the recording subclass (first call per objective)
+            seen = {}
+            for ev, x, v in _THOMPSON:
+                if ev not in seen and len(x) == len(alg.points):
+                    seen[ev] = v
+            del _THOMPSON[:]
+            if len(seen) == alg.m:
+                cand, vals = [], []
+                for i in range(len(alg.points)):
+                    for o in range(alg.m):
+                        cand.append([i + 1, o + 1])
+                        vals.append(float(seen[o][i]))
+                return {"cand": cand, "vals": vals}
     except Exception as e:  # the acquisition could not be recomputed: the argmax clause is skipped, never failed
         return {"error": repr(e)}
     return None
@@ -649,6 +685,9 @@ def record(cfg):
     t0 = time.time()
     np.seterr(all="ignore")
     smodel = None
+    if cfg["alg"] == "DecoupledGP":
+        install_thompson_recorder()
+        del _THOMPSON[:]
     try:
         if cfg.get("script"):
             alg, smodel = build_scripted(cfg)
